@@ -11,7 +11,7 @@ Checked on the loop nest (terms for the data, CFG paths for the cursor):
                 which may have the same sub (the result is then not compressed)
 """
 from . import mir
-from .base import inst, OK, VIOLATION, UNDECIDED, strip
+from .base import verdict_of, errtext, inst, OK, VIOLATION, UNDECIDED, strip
 from .facts import CheckerError
 from .mir import show
 
@@ -56,7 +56,7 @@ def run(prog):
     eqs = [cs for cs in te.calls if cs.callee.name in ("eq", "sdd_eq") and len(cs.args) >= 2 and cs.bb in cfg.loop_headers[hj]]
     errs = []
     if len(eqs) != 1:
-        errs.append("expected one equality test in the inner loop, found %d" % len(eqs))
+        errs.append("?expected one equality test in the inner loop, found %d" % len(eqs))
     else:
         a, b = acc(eqs[0].args[-2], "sub"), acc(eqs[0].args[-1], "sub")
         if {a, b} != {"i", "j"}:
@@ -70,14 +70,14 @@ def run(prog):
              and strip(c)[1] in ("Lt", "Ge", "Le", "Gt") and any(x == jmu for x in mir.subterms(strip(c)))]
     if not bound or not any(mir.is_call(x, "len") for x in mir.subterms(strip(bound[0]))):
         errs.append("the inner loop is not bounded by the current length of the list")
-    out.append(inst("CM", "%s:CM1:test" % fn.npath, VIOLATION if errs else OK, fn, eqs[0].line if eqs else None,
-                    "; ".join(errs) if errs else "merge test sub(node[i]) == sub(node[j]), j from i+1 while j < len"))
+    out.append(inst("CM", "%s:CM1:test" % fn.npath, verdict_of(errs), fn, eqs[0].line if eqs else None,
+                    errtext(errs) if errs else "merge test sub(node[i]) == sub(node[j]), j from i+1 while j < len"))
     # CM2
     errs = []
     news = [cs for cs in te.calls if cs.callee.name == "new" and "SddAnd" in cs.callee.key()]
     rms = [cs for cs in te.calls if cs.callee.name in ("swap_remove", "remove") and strip(cs.args[0]) == ("param", 2)]
     if len(news) != 1 or len(rms) != 1:
-        errs.append("expected one SddAnd::new and one removal, found %d/%d" % (len(news), len(rms)))
+        errs.append("?expected one SddAnd::new and one removal, found %d/%d" % (len(news), len(rms)))
     else:
         p, s_ = strip(news[0].args[0]), strip(news[0].args[1])
         if not (mir.is_call(p, "or") and {acc(p[2][-2], "prime"), acc(p[2][-1], "prime")} == {"i", "j"}):
@@ -100,8 +100,8 @@ def run(prog):
                 continue
             errs.append("elements with equal subs are merged only if additionally `%s` is %s: the remaining equal subs stay "
                         "in the node, which is then not compressed" % (sc[:70], "false" if val == "0" else "true"))
-    out.append(inst("CM", "%s:CM2:merge" % fn.npath, VIOLATION if errs else OK, fn, news[0].line if news else None,
-                    "; ".join(errs) if errs else "node[i] := (prime_i ∨ prime_j, sub_i); node[j] removed, under the merge test"))
+    out.append(inst("CM", "%s:CM2:merge" % fn.npath, verdict_of(errs), fn, news[0].line if news else None,
+                    errtext(errs) if errs else "node[i] := (prime_i ∨ prime_j, sub_i); node[j] removed, under the merge test"))
     # CM3: per inner iteration remove-and-stay or keep-and-advance
     body = cfg.loop_headers[hj]
     rm_bbs = {cs.bb for cs in rms}
@@ -132,10 +132,10 @@ def run(prog):
         if not rm and inc != 1:
             errs.append("an iteration keeps node[j] but advances j by %d" % inc)
     if not results:
-        errs.append("no path through the inner loop found")
+        errs.append("?no path through the inner loop found")
     out += trimming(prog)
-    out.append(inst("CM", "%s:CM3:cursor" % fn.npath, VIOLATION if errs else OK, fn, None,
-                    "; ".join(errs) if errs else "per iteration: remove-and-stay or keep-and-advance %s" % sorted(results)))
+    out.append(inst("CM", "%s:CM3:cursor" % fn.npath, verdict_of(errs), fn, None,
+                    errtext(errs) if errs else "per iteration: remove-and-stay or keep-and-advance %s" % sorted(results)))
     return out
 
 
